@@ -21,6 +21,19 @@ pub struct LGen {
     pub big_runs: bool,
 }
 
+/// occasionally make pool[1] a proper prefix of pool[0] (stored overlapped when `overlap_prefixes` is set)
+fn with_prefix_pair(mut pool: Vec<content::ContentSpec>, flag: u8) -> Vec<content::ContentSpec> {
+    if flag % 3 == 0 && pool.len() >= 2 {
+        let s = u32::from(flag) * 257 + 11; // < 2^24
+        let e = u32::from(flag / 3) & 7;
+        let extra = 1 + e;
+        let len = 2 + u32::from(flag % 50) + extra;
+        pool[0] = content::ContentSpec { kind: 0, len, seed: s };
+        pool[1] = content::ContentSpec { kind: 6, len: len - extra, seed: (s << 8) | e };
+    }
+    pool
+}
+
 /// occasionally replace one pool content by a big one (tens to hundreds of KiB, odd sizes around the
 /// 16 KiB / 64 KiB chunking boundaries readers like to use)
 fn with_big_tile(mut pool: Vec<content::ContentSpec>, pick_big: u8, size_sel: u8) -> Vec<content::ContentSpec> {
@@ -40,11 +53,11 @@ pub fn layout(g: LGen) -> impl Strategy<Value = Layout> {
     (
         (1u8..=4, any::<u8>(), any::<u8>(), 0u8..24, proptest::array::uniform5(prop_oneof![3 => Just(0u16), 2 => 1u16..300])),
         (1u8..=3, prop_oneof![2 => 1u16..4, 3 => 4u16..64], 1u16..8, any::<bool>(), prop_oneof![1 => Just(0u32), 1 => any::<u32>()], prop_oneof![2 => Just(0u8), 1 => 1u8..20]),
-        (first_id, entries, (content::pool(10, false, false), any::<u8>(), any::<u8>()).prop_map(|(p, a, b)| with_big_tile(p, a, b)), 0u8..4),
-        (prop_oneof![1 => Just(None), 3 => json::object(false).prop_map(Some)], 0u8..=5, 0u8..=4, any::<[u8; 3]>(), coords, prop_oneof![4 => Just(0u8), 1 => Just(7u8), 1 => 0u8..8]),
+        (first_id, entries, (content::pool(10, false, false), any::<u8>(), any::<u8>(), any::<u8>()).prop_map(|(p, a, b, c)| with_big_tile(with_prefix_pair(p, c), a, b)), 0u8..4),
+        (prop_oneof![1 => Just(None), 3 => json::object(false).prop_map(Some)], 0u8..=5, 0u8..=4, any::<[u8; 3]>(), coords, prop_oneof![4 => Just(0u8), 1 => Just(7u8), 1 => 0u8..8], any::<bool>()),
     )
         .prop_map(
-            |((internal, level, flag, order, gaps), (depth, fan1, fan2, elide, leaf_shuffle, leaf_gap), (first_id, entries, pool, data_mode), (meta, tile_type, tile_comp, zooms, coords, zero_counters))| Layout {
+            |((internal, level, flag, order, gaps), (depth, fan1, fan2, elide, leaf_shuffle, leaf_gap), (first_id, entries, pool, data_mode), (meta, tile_type, tile_comp, zooms, coords, zero_counters, overlap_prefixes))| Layout {
                 internal,
                 params: Params { level, flag },
                 order,
@@ -65,6 +78,7 @@ pub fn layout(g: LGen) -> impl Strategy<Value = Layout> {
                 zooms,
                 coords,
                 zero_counters,
+                overlap_prefixes,
             },
         )
         .prop_map(move |mut l| {
